@@ -3,7 +3,12 @@ package main
 // C06 — multi-entry containers list every entry, in order, as if inspected alone.
 //
 // Ops (input / implementation observation):
-//   akeys, khosts : (name data oracle cands layout alone) / (parser-obs inspect-obs 1)
+//   akeys, khosts : (name data oracle cands layout alone blobs) / (parser-obs inspect-obs 1)
+//       blobs  = ((key-blob obs)...)  ssh.ParsePublicKey + attribute builder on every field of every line that is base64:
+//                (0 (type ((name value)...))) | (1) | (2); the model splits the lines into fields itself (Model/Containers.v
+//                auth_line / hosts_line) and is compared with the library's answer for every chunk (oracle)
+//   sshline : (hosts? line blobs expect alone) / obs of the library's line parser + attribute builder on that one line
+//       expect = () | (hosts-value)  the line is a well-formed entry (then alone = (obs) the key described on its own)
 //       oracle = ((chunk obs)...)   what the x/crypto/ssh line parser + attribute builder make of every LF-separated chunk
 //       cands  = ((parser-name obs)...) result of every candidate parser of file.Inspect, in table order
 //       layout = () | (items le trail)   items: (0 line [hosts]) entry | (1 ws) blank | (2 ws text) comment
@@ -104,6 +109,44 @@ func c06Inspect(c *Ctx, name string, data []byte, targets ...string) (SL, Sx) {
 }
 
 // ---------------------------------------------------------------- SSH files
+
+// c06Blobs: the answers of ssh.ParsePublicKey (+ attribute builder) for every field of the text that is
+// valid base64 - the only places where the model of the line parsers consults the library.
+func c06Blobs(data []byte) SL {
+	out := SL{}
+	seen := map[string]bool{}
+	add := func(blob []byte) {
+		if seen[string(blob)] {
+			return
+		}
+		seen[string(blob)] = true
+		blob = append([]byte{}, blob...)
+		out = append(out, SL{SB(blob), guard(func() Sx {
+			typ, attrs, err := file.VerifSSHKeyBlobAttrs(blob)
+			if err != nil {
+				return ObsErr()
+			}
+			l := SL{}
+			for _, a := range attrs {
+				l = append(l, SL{S(a.Name), S(a.Value)})
+			}
+			return ObsOk(SL{S(typ), l})
+		})})
+	}
+	add(nil)
+	for _, ch := range bytes.Split(data, []byte("\n")) {
+		if i := bytes.IndexByte(ch, '\r'); i >= 0 {
+			ch = ch[:i]
+		}
+		for _, f := range bytes.Fields(ch) {
+			buf := make([]byte, base64.StdEncoding.DecodedLen(len(f)))
+			if n, err := base64.StdEncoding.Decode(buf, f); err == nil {
+				add(buf[:n])
+			}
+		}
+	}
+	return out
+}
 
 type sshKeyT struct{ typ, b64 string }
 
@@ -312,7 +355,29 @@ func c06SSHCase(c *Ctx, op, tag string, data []byte, its []sshItem, crlf bool, t
 		layout = SL{items, Bool(crlf), I(trail)}
 	}
 	pobs := c06_infoObs(func() (file.Info, error) { return parser(file.Info{}, data) })
-	c.Emit(op+":"+tag, SL{S(name), SB(data), oracle, cands, layout, alone}, SL{pobs, insp, I(1)})
+	blobData := data
+	for _, it := range its {
+		if it.kind == 0 {
+			blobData = append(append(append([]byte{}, blobData...), '\n'), it.line...)
+		}
+	}
+	c.Emit(op+":"+tag, SL{S(name), SB(data), oracle, cands, layout, alone, c06Blobs(blobData)}, SL{pobs, insp, I(1)})
+}
+
+// c06LineCase: one line through the library's line parser (op sshline).  expectHosts != nil: the line is a
+// well-formed entry whose key, on its own, is `key` ("type base64 comment").
+func c06LineCase(c *Ctx, tag string, hosts bool, line []byte, wellFormed bool, expectHosts, key string) {
+	lineFn := file.VerifSSHAuthLineAttrs
+	if hosts {
+		lineFn = file.VerifSSHKnownHostsLineAttrs
+	}
+	expect, alone := SL{}, SL{}
+	if wellFormed {
+		expect = SL{S(expectHosts)}
+		alone = SL{c06_infoObs(func() (file.Info, error) { return file.SSHPublicKey(file.Info{}, []byte(key+"\n")) })}
+	}
+	obs := c06_attrsObs(func() ([]file.Attribute, error) { return lineFn(line) })
+	c.Emit("sshline:"+tag, SL{Bool(hosts), SB(line), c06Blobs(line), expect, alone}, obs)
 }
 
 func c06SSHLayoutCase(c *Ctx, op, tag string, its []sshItem, crlf bool, trail int) {
@@ -379,6 +444,9 @@ func genC06SSH(c *Ctx) {
 	c06SSHLayoutCase(c, "khosts", "corpus", []sshItem{hent("example.com", ed), hent("other.example", rsa)}, true, 1)
 	c06SSHLayoutCase(c, "khosts", "corpus", []sshItem{hent("example.com", ed), hent("other.example", rsa)}, false, 1)
 	c06SSHLayoutCase(c, "khosts", "corpus", []sshItem{{kind: 2, text: " only a comment"}}, false, 1)
+	// known finding C06-ssh-quoted-key: a quoted option that holds, after a blank, the base64 of a key blob
+	edf, rsaf := strings.Fields(ed), strings.Fields(rsa)
+	c06SSHLayoutCase(c, "akeys", "quoted-key", []sshItem{ent(ed), {kind: 0, line: `command="echo ` + edf[1] + ` >>log" ` + rsaf[0] + " " + rsaf[1] + " me@host", key: rsaf[0] + " " + rsaf[1] + " me@host"}}, false, 1)
 	// an unparsable line among good ones (decided behaviour: the file is an error, nothing is listed partially)
 	c06SSHCase(c, "akeys", "badline", []byte(ed+"\nthis is not a key\n"+rsa+"\n"), nil, false, 1)
 	c06SSHCase(c, "khosts", "badline", []byte("example.com "+ed+"\nthis is not a key line at all\n"), nil, false, 1)
@@ -457,6 +525,123 @@ func genC06SSH(c *Ctx) {
 			}
 			c06SSHCase(c, op, "malformed", d, nil, false, 0)
 		}
+	}
+}
+
+// ---------------------------------------------------------------- single lines (op sshline)
+
+var c06QuotedOptions = []string{`command="echo hi"`, `command="a,b c"`, `command="say \"hi\" there"`, `environment="A=B C",no-pty`,
+	`from="*.example.com, 10.0.0.?"`, `command="#"`, `command=""`, `no-pty,command="x y"`, "command=\"tab\there\"",
+	`permitopen="host:22",command="a  b"`, `command="/bin/sh -c \"exit 0\"",no-X11-forwarding`, `restrict`, `a,b,,c`, `command="ends with backslash\\\\ x"`}
+
+func c06RandOption(r *Rng) string {
+	names := []string{"command", "from", "environment", "permitopen", "principals", "x"}
+	flags := []string{"no-pty", "restrict", "cert-authority", "no-agent-forwarding", "X"}
+	var parts []string
+	for k := 1 + r.Intn(3); k > 0; k-- {
+		if r.Intn(3) == 0 {
+			parts = append(parts, flags[r.Intn(len(flags))])
+			continue
+		}
+		alphabet := []string{"a", "b", " ", " ", "\t", ",", `\"`, "#", "=", "/", `\\x`, "-"}
+		var sb strings.Builder
+		for n := r.Intn(8); n > 0; n-- {
+			sb.WriteString(alphabet[r.Intn(len(alphabet))])
+		}
+		parts = append(parts, names[r.Intn(len(names))]+`="`+sb.String()+`"`)
+	}
+	return strings.Join(parts, ",")
+}
+
+func genC06Lines(c *Ctx) {
+	r := c.R
+	ks := c06SSHKeys(r)
+	ed := strings.Fields(string(fixture("ssh/id_ed25519.pub")))
+	rsa := strings.Fields(string(fixture("ssh/id_rsa_1024.pub")))
+	sep := func() string { return c06Seps[r.Intn(len(c06Seps))] }
+	// ---- corpus ----
+	c06LineCase(c, "corpus", false, []byte(ed[0]+" "+ed[1]+" me@host"), true, "", ed[0]+" "+ed[1]+" me@host")
+	c06LineCase(c, "corpus", false, []byte(`command="echo hi",no-pty `+ed[0]+" "+ed[1]+" me@host"), true, "", ed[0]+" "+ed[1]+" me@host")
+	c06LineCase(c, "corpus", false, []byte(`command="say \"hi\" # x" `+rsa[0]+"\t"+rsa[1]), true, "", rsa[0]+" "+rsa[1])
+	c06LineCase(c, "corpus", true, []byte("@cert-authority *.example.org "+ed[0]+" "+ed[1]+" ca"), true, "*.example.org", ed[0]+" "+ed[1]+" ca")
+	c06LineCase(c, "corpus", true, []byte("a.example,b.example "+rsa[0]+" "+rsa[1]+" two words"), true, "a.example, b.example", rsa[0]+" "+rsa[1]+" two words")
+	// a quoted option that holds, after a blank, something that is itself a key blob (x/crypto/ssh tries the text
+	// after the first blank of the line as "base64 key, comment" before it looks for options)
+	c06LineCase(c, "quoted-key", false, []byte(`command="echo `+ed[1]+` >>log" `+rsa[0]+" "+rsa[1]+" me@host"), true, "", rsa[0]+" "+rsa[1]+" me@host")
+	// rejected lines
+	for _, l := range []string{"", "#", "# comment", "   ", "oneword", ed[0], ed[0] + " ", ed[0] + " notbase64!", ed[0] + " AAAA",
+		`command="unterminated ` + ed[0] + " " + ed[1], `command="x" `, `command="x" ` + ed[0], "no-pty " + ed[0] + " AAAA c",
+		ed[0] + "\xc2\xa0" + ed[1], "\xef\xbb\xbf# comment", "\x00", ed[0] + " " + ed[1][:len(ed[1])-2] + " c"} {
+		c06LineCase(c, "rejected", false, []byte(l), false, "", "")
+	}
+	for _, l := range []string{"", "# c", "host", "host " + ed[0], "host " + ed[0] + " AAAA", "@revoked host " + ed[0], "@revoked host " + ed[0] + " " + ed[1] + " a b",
+		"host " + ed[0] + " " + ed[1] + " a b c", "host\xc2\xa0" + ed[0] + "\xc2\xa0" + ed[1], "h1 h2 " + ed[0] + " " + ed[1], "@ host " + ed[0] + " " + ed[1],
+		"host " + ed[0] + "\xc2\xa0x " + ed[1]} {
+		c06LineCase(c, "rejected", true, []byte(l), false, "", "")
+	}
+	// ---- authorized_keys lines: options with quoted blanks, commas, escaped quotes ----
+	n := 160
+	if c.Thorough() {
+		n = 4000
+	}
+	for i := 0; i < n; i++ {
+		k := ks[r.Intn(len(ks))]
+		cm := c06Comments[r.Intn(len(c06Comments))]
+		key := k.typ + " " + k.b64
+		line := k.typ + sep() + k.b64
+		if cm != "" {
+			key += " " + cm
+			line += sep() + cm
+		}
+		switch r.Intn(4) {
+		case 0:
+		case 1:
+			line = c06QuotedOptions[r.Intn(len(c06QuotedOptions))] + sep() + line
+		default:
+			line = c06RandOption(r) + sep() + line
+		}
+		if r.Intn(6) == 0 {
+			line = []string{" ", "\t", "  ", "\v", "\xc2\xa0"}[r.Intn(5)] + line
+		}
+		if r.Intn(6) == 0 {
+			line += []string{" ", "\t", "\r", " \r", "\r ignored", "\f", "\xe2\x80\x83"}[r.Intn(7)]
+		}
+		c06LineCase(c, "auth", false, []byte(line), true, "", key)
+	}
+	// ---- known_hosts lines ----
+	for i := 0; i < n; i++ {
+		it := c06HostsEntry(r, ks)
+		line := it.line
+		if r.Intn(6) == 0 {
+			line = []string{" ", "\t", "\xc2\xa0"}[r.Intn(3)] + line
+		}
+		if r.Intn(6) == 0 {
+			line += []string{" ", "\t", "\r", "\r x y z"}[r.Intn(4)]
+		}
+		c06LineCase(c, "hosts", true, []byte(line), true, it.hosts, it.key)
+	}
+	// ---- malformed stream: mutated lines, no expectation but model = library ----
+	nm := 250
+	if c.Thorough() {
+		nm = 6000
+	}
+	for i := 0; i < nm; i++ {
+		hosts := r.Bool()
+		var line string
+		if hosts {
+			line = c06HostsEntry(r, ks).line
+		} else {
+			line = c06AuthEntry(r, ks).line
+			if r.Bool() {
+				line = c06RandOption(r) + sep() + line
+			}
+		}
+		d := c06Mutate(r, []byte(line))
+		if r.Intn(3) == 0 {
+			d = c06Mutate(r, d)
+		}
+		d = bytes.ReplaceAll(d, []byte("\n"), []byte(" "))
+		c06LineCase(c, "malformed", hosts, d, false, "", "")
 	}
 }
 
@@ -581,7 +766,7 @@ type pemItem struct {
 	kind int // 0 block, 1 text, 2 PGP armor, 3 undecodable block
 	text []byte
 	blk  pemBlockT
-	wrap int  // kind 0: how the block is written (c06Armor)
+	wrap int // kind 0: how the block is written (c06Armor)
 	crlf bool
 	fin  bool
 }
@@ -1267,6 +1452,7 @@ func genC06(c *Ctx) {
 	// stream.  Re-seed from the first (fully mixed) output so that seeds 1, 2, 3 ... are unrelated.
 	c.R = NewRng(c.R.U64())
 	genC06SSH(c)
+	genC06Lines(c)
 	genC06PEM(c)
 	genC06JKS(c)
 	os.RemoveAll(filepath.Join(c.Tmp, "c06"))
